@@ -149,6 +149,8 @@ def scen_accept(ch, params, out):
         return
     max_literals = ch.choose("max_literals", params.get("max_literals", [10]))
     kwargs = {"max_literals": max_literals}
+    if params.get("convert_unicode"):
+        kwargs["convert_unicode"] = ch.choose("convert_unicode", params["convert_unicode"])
     if fw in ("attrs", "dataclasses") and params.get("converters") and ch.flag("post_init_converters"):
         kwargs["post_init_converters"] = True
     out.info.update(framework=fw, layout=layout)
@@ -287,6 +289,9 @@ def parts(tier):
                shards=16, timeout=170, path_timeout=30, mode="CH-P+CH-E"),
             CH("cli_several_files", "vflib.props.c01:scen_cli_files", {"kinds": "KINDS_SMALL", "third_kinds": ["absent", "s_abc", "o_k"]},
                shards=16, timeout=170, path_timeout=30, mode="CH-E"),
+            CH("without_unicode_conversion", "vflib.props.c01:scen_accept",
+               {"kinds": "KINDS_SMALL", "samples": 2, "keys": ["a"], "frameworks": ["pydantic", "dataclasses", "attrs"], "layouts": ["flat"],
+                "convert_unicode": [False], "symbolic_leaves": False}, shards=16, timeout=170, path_timeout=30, mode="CH-E"),
             CH("odd_key_and_string_values", "vflib.props.c01:scen_accept",
                {"kinds": "KINDS_ODDSTR", "samples": 2, "keys": ["tab\tastral\U0001F600"], "frameworks": ["pydantic", "sqlmodel"], "layouts": ["flat"],
                 "symbolic_leaves": False}, shards=16, timeout=170, path_timeout=30, mode="CH-E"),
